@@ -3,6 +3,9 @@
 //   P <hex source>  parser.Parse on the source: "P <#diagnostics> <codes> <one item per top level statement>"
 //                   items: S:<hex> I:<dec> F:<ieee bits hex> C:<dec> B:<0|1> -<item> L[<item>,...] (<item>,op<n>,<item>) for the
 //                   initial value of a variable declaration, "!" for a bad declaration, "?<GoType>" otherwise.
+//   W <hex source>  parser.Parse on a whole program (imports of the Duden resolved through DDPPATH, imported modules
+//                   cached between programs): "W <#error diagnostics> <faulty 0|1> <codes> <every literal node of the
+//                   main module in visiting order>", a literal under a unary minus is printed as -<item>.
 // ("-" stands for the empty byte string; only observables, never message texts.)
 package main
 
@@ -116,6 +119,79 @@ func doParse(src []byte) (res string) {
 	return fmt.Sprintf("P %d %s %s", len(codes), cs, strings.Join(items, " "))
 }
 
+// every literal node of the module (function bodies, call arguments, list elements, ...)
+type litCollector struct {
+	items []string
+}
+
+func (*litCollector) Visitor() {}
+func (c *litCollector) VisitIntLit(e *ast.IntLit) ast.VisitResult {
+	c.items = append(c.items, item(e))
+	return ast.VisitRecurse
+}
+func (c *litCollector) VisitFloatLit(e *ast.FloatLit) ast.VisitResult {
+	c.items = append(c.items, item(e))
+	return ast.VisitRecurse
+}
+func (c *litCollector) VisitCharLit(e *ast.CharLit) ast.VisitResult {
+	c.items = append(c.items, item(e))
+	return ast.VisitRecurse
+}
+func (c *litCollector) VisitStringLit(e *ast.StringLit) ast.VisitResult {
+	c.items = append(c.items, item(e))
+	return ast.VisitRecurse
+}
+func (c *litCollector) VisitUnaryExpr(e *ast.UnaryExpr) ast.VisitResult {
+	if e.Operator == ast.UN_NEGATE {
+		switch e.Rhs.(type) {
+		case *ast.IntLit, *ast.FloatLit:
+			c.items = append(c.items, item(e))
+			return ast.VisitSkipChildren
+		}
+	}
+	return ast.VisitRecurse
+}
+
+var importCache = map[string]*ast.Module{}
+
+func doWhole(src []byte) (res string) {
+	var codes []string
+	handler := func(e ddperror.Error) {
+		if e.Level == ddperror.LEVEL_ERROR {
+			codes = append(codes, fmt.Sprintf("%d", int(e.Code)))
+		}
+	}
+	defer func() {
+		if r := recover(); r != nil {
+			res = "W PANIC"
+		}
+	}()
+	mods := map[string]*ast.Module{}
+	for k, v := range importCache {
+		mods[k] = v
+	}
+	mod, err := parser.Parse(parser.Options{FileName: "verif_lit.ddp", Source: src, ErrorHandler: handler, Modules: mods})
+	if err != nil || mod == nil || mod.Ast == nil {
+		return fmt.Sprintf("W ERR %d", len(codes))
+	}
+	for k, v := range mods {
+		if v != mod && v != nil && v.Ast != nil && !v.Ast.Faulty && strings.Contains(k, "Duden") {
+			importCache[k] = v
+		}
+	}
+	col := &litCollector{}
+	ast.VisitModule(mod, col)
+	cs := "-"
+	if len(codes) > 0 {
+		cs = strings.Join(codes, ",")
+	}
+	f := 0
+	if mod.Ast.Faulty {
+		f = 1
+	}
+	return fmt.Sprintf("W %d %d %s %s", len(codes), f, cs, strings.Join(col.items, " "))
+}
+
 func doToken(src []byte) (res string) {
 	n := 0
 	handler := func(e ddperror.Error) {
@@ -152,6 +228,8 @@ func main() {
 			fmt.Fprintln(out, doToken(unhx(fs[1])))
 		case "P":
 			fmt.Fprintln(out, doParse(unhx(fs[1])))
+		case "W":
+			fmt.Fprintln(out, doWhole(unhx(fs[1])))
 		default:
 			fmt.Fprintln(out, "?")
 		}
